@@ -75,6 +75,9 @@ func wrapClient(r regSpec, conn net.Conn) (net.Conn, error) {
 	return nil, fmt.Errorf("no client")
 }
 
+// c04Late: per manager, a registration that still has to be validated after a first, refused round of connections
+var c04Late = map[*cj.RegistrationManager]*c03LateReg{}
+
 func runC04(rm *cj.RegistrationManager, anns *[]cj.VerifDetectorMsg, phantom net.IP, me regSpec, early, later []byte, cuts []int, gaps []time.Duration, greeting []byte, prior string) c04Result {
 	vrand.Script = func(kind string, n int64) (float64, bool) {
 		if kind == "Int63n" {
@@ -106,6 +109,19 @@ func runC04(rm *cj.RegistrationManager, anns *[]cj.VerifDetectorMsg, phantom net
 			// a station handles many connections with one connection manager: optionally the same manager has
 			// already handled an unauthenticated probe (every transport ruled itself out for that connection)
 			// or a session of another transport before the connection under test arrives
+			if late := c04Late[rm]; late != nil {
+				// the registration under test was tracked but not yet validated (liveness probe still running) when
+				// its impatient client - and a prober - first connected: both were refused, correctly. It has been
+				// validated since; nothing of those refused connections may stand between the client and its covert.
+				delete(c04Late, rm)
+				for i, data := range [][]byte{late.flight, noise(200, "early-probe")} {
+					pc := &vconn.Conn{Name: "before-validation", Local: paddr, Remote: &net.TCPAddr{IP: net.IPv4(198, 51, 100, 10), Port: 40010 + i},
+						In: []vconn.Event{{Data: data}, {Err: io.EOF}}}
+					cm.handleNewTCPConn(rm, pc, phantom)
+					pc.Close()
+				}
+				late.validate()
+			}
 			switch prior {
 			case "probe":
 				pc := &vconn.Conn{Name: "prior-probe", Local: paddr, Remote: &net.TCPAddr{IP: net.IPv4(198, 51, 100, 9), Port: 40001},
@@ -216,13 +232,23 @@ func verifC04(a *vh.Args) {
 		if tc.spec.tt == pb.TransportType_Prefix {
 			coHere = append(append([]string{}, coRes...), "alone;station-holds-two-keys")
 		}
+		coHere = append(append([]string{}, coHere...), "alone;connected-before-validation")
 		for _, co := range coHere {
 			vfix.PrefixKeyRotation = strings.Contains(co, "two-keys")
 			rm := vfix.Manager(nil, vfix.Selector(vfix.SubnetsTOML), &vfix.Tester{}, vfix.AllWrapping, nil)
 			vfix.PrefixKeyRotation = false
 			var anns []cj.VerifDetectorMsg
 			rm.VerifCaptureDetector(&anns)
-			mine := addReg(rm, tc.spec, phantom)
+			var mine *cj.DecoyRegistration
+			if strings.Contains(co, "before-validation") {
+				pending := tc.spec
+				pending.valid = false
+				mine = addReg(rm, pending, phantom)
+				reg := mine
+				c04Late[rm] = &c03LateReg{flight: clientFlight(tc.spec), validate: func() { rm.AddRegistration(reg) }}
+			} else {
+				mine = addReg(rm, tc.spec, phantom)
+			}
 			switch co {
 			case "one-same-transport":
 				o := tc.spec
